@@ -1,6 +1,8 @@
 HOOK_COMMITS = ["4172cbf", "74fb8b3", "113d79e", "16481f2", "a8453e3", "1565b2c"]
 
 ENGINES = [
+    {"name": "topo", "path": "engines/topo.c", "serves_properties": ["C19", "C11"],
+     "kind_free_text": "cross-checks GetReceiver/IsNeighbor/CountDirections over a size box for the eight geometries; purity replay of (generator state, query) lists in other orders and on 2..12 threads; ASan+UBSan, debug and NDEBUG"},
     {"name": "num", "path": "engines/num.c", "serves_properties": ["C18", "C11"],
      "kind_free_text": "calls the real numerical library with the calling LP's xoshiro256** state crafted (closed-form inversion, verified by stepping the real recurrence) so the next 1..3 raw outputs are boundary values; range/finiteness/isolation assertions + UBSan/ASan"},
     {"name": "part", "path": "engines/part.c", "serves_properties": ["C14"],
@@ -10,6 +12,13 @@ ENGINES = [
 ]
 
 CHECKS = {
+    "C19": {
+        "engine": "topo",
+        "technique": "runtime cross-check oracle over an exhaustive size box + metamorphic purity replay (orders, threads) under ASan/UBSan",
+        "text": "For every geometry, every size in the box (quick: grids up to 8x8, 1..40 regions; thorough: 24x24, 1..200), every source and every direction: receiver is INVALID or inside and IsNeighbor-confirmed, DIRECTION_RANDOM valid whenever a neighbour exists (INVALID otherwise, NDEBUG build), CountDirections equals the stated count. Purity: 20k-60k (state, query) pairs replayed in random order with unrelated calls in between on 1 and 2..12 threads must reproduce the baseline answer and stream consumption. Found and now guards F6, F7, F8 (fixed).",
+        "design_ref": "DESIGN.md section 4, C19",
+        "note": "Geometric correctness of adjacency (e.g. symmetry) is not part of the property and not checked; sizes beyond the box are not explored; thread interleavings are whatever the OS produced (TSan not used here).",
+    },
     "C18": {
         "engine": "num",
         "technique": "runtime assertions + UBSan on the real library with crafted generator states (boundary raw outputs) and random states",
